@@ -142,7 +142,10 @@ def check_property(prop, tier, seed, jobs, write_evidence=True):
     cover_problems = []
     bounded = []
     all_obls = []
+    slow = []
     for t, r in zip(tasks, results):
+        for o in r.get("obligations", []):
+            slow.append((o.get("solver_s", 0), o["id"]))
         cname = r["contract"]
         if r.get("function"):
             f = dict(r["function"])
@@ -265,6 +268,8 @@ def check_property(prop, tier, seed, jobs, write_evidence=True):
                 "known_findings": [k["what"] for k, _ in known_hits][:20],
                 "not_decided": sorted(set(sum([c.not_decided for c in cs], []))),
                 "obligation_ids": all_obls,
+                "slowest_obligations": [{"obligation": i, "solver_s": s_} for s_, i in sorted(slow, reverse=True)[:8]],
+                "slowest_cases": sorted([(r.get("wall_s", 0), r["contract"].split("::")[-1] + " " + json.dumps(r["case"], sort_keys=True)) for r in results], reverse=True)[:5],
             },
             "assumptions": trusted,
             "wall_s": round(wall, 2),
